@@ -2,7 +2,8 @@
 """Prints a markdown table of all seeded changes with the verdicts recorded by tools/run_seeds.sh (seeded/*/detection.txt)."""
 import glob, json, os, re
 rows = []
-for d in sorted(glob.glob(os.path.join(os.path.dirname(os.path.dirname(os.path.abspath(__file__))), "seeded", "*"))):
+for d in sorted(glob.glob(os.path.join(os.path.dirname(os.path.dirname(os.path.abspath(__file__))), "seeded", "*", ""))):
+    d = d.rstrip("/")
     m = json.load(open(os.path.join(d, "meta.json")))
     det = os.path.join(d, "detection.txt")
     verdicts = []
